@@ -76,6 +76,11 @@ def build(rng, u, reg, root, i):
             break
     d = dirs.PelDir(os.path.join(root, "d%d" % i))
     d.extend(ents)
+    if i % 3 == 1:
+        # some logs present as symbolic links to files kept elsewhere: found by every look-up like the others
+        import shutil
+        shutil.rmtree(os.path.join(root, "store"), ignore_errors=True)
+        dirs.symlink_entries(rng, ents, os.path.join(root, "store"), 0.5)
     if rng.random() < 0.5:
         # a sub-directory named after one of the entry ids, sorting before the PEL files: look-ups go to FILES
         e = rng.choice(ents)
